@@ -9,7 +9,10 @@ Embedded backend (`backend_embedded.go:IncrBy/Set` inside `db.Update`, `/repo/tx
   commit  under the oracle lock (`newCommitTs`): if conflict detection is on and some committed
           transaction with ts > readTs wrote the key → ErrConflict (error reply, nothing written);
           otherwise ts := nextTs++, the write lands at ts, reply OK.
-          With `Options.DetectConflicts = false` `committedTxns` stays empty: never a conflict.
+          With `Options.DetectConflicts = false` `committedTxns` stays empty: never a conflict;
+          likewise when `Txn.Get` does not record the key it read (`trackGet = false`): an empty
+          read set never conflicts.  The key may be absent because it was never written, was
+          deleted or has expired: the model's "absent" covers all three, and so must the tracking.
 
 Raft backend (`backend_raft.go:IncrBy/Set → mutate → client.Mutate`):
   begin   t1 := TSO.Reserve(1); the value is read at version t1;
@@ -29,16 +32,19 @@ structure RedisCfg where
   detectConflicts : Bool
   /-- raft backend: is the write validated against the timestamp the value was read at? -/
   raftConflictFromReadTs : Bool
+  /-- `Txn.Get` records the key in the read set before the lookup, i.e. on every return path
+      (value, miss, delete marker, expired version) -/
+  trackGet : Bool
   deriving DecidableEq, Repr
 
-def RedisCfg.good : RedisCfg := ⟨true, true⟩
+def RedisCfg.good : RedisCfg := ⟨true, true, true⟩
 
 inductive Mode where
   | embedded | raft
   deriving DecidableEq, Repr
 
 def RedisCfg.detects (c : RedisCfg) : Mode → Bool
-  | .embedded => c.detectConflicts
+  | .embedded => c.detectConflicts && c.trackGet
   | .raft => c.raftConflictFromReadTs
 
 inductive Cmd where
